@@ -4,8 +4,11 @@ import os
 import re
 import lib
 
-_MUTANTS_QUICK = ["no_chain_on_split"]
-_MUTANTS_ALL = ["no_unlink_on_coalesce", "no_chain_on_split", "fits_any"]
+_MUTANTS_QUICK = ["no_chain_on_split", "stale_next_on_split"]
+_MUTANTS_ALL = ["no_unlink_on_coalesce", "no_chain_on_split", "stale_next_on_split", "fits_any"]
+# branches of publish / delete the replayed behaviours must reach (labels of PublishPath / DeletePath / UpdatePath in Archive.tla)
+_PATHS_REQUIRED = ["append", "exact@head", "exact@chain", "split@head", "split@chain", "head-plain", "head-truncate",
+                   "head-coalesce", "mid-plain", "mid-coalesce", "mid-truncate", "inplace"]
 
 
 def _seeded_cfg(ctx, name, seed):
@@ -59,6 +62,17 @@ def _run(ctx):
         n = lib.extract_replays(gen["out"], beh)
         if n == 0:
             raise lib.ToolError("no behaviours exported by Gen_Archive")
+        # fragmented archives: random walks over three page sizes (both tiers)
+        cfg = _seeded_cfg(ctx, "Gen_Archive_frag.cfg", ctx.seed)
+        frag = lib.tlc(ctx, "gen_frag", "Gen_Archive.tla", cfg, workers=4, timeout=1500, count=False)
+        fb = ctx.path("frag.ndjson")
+        n_frag = lib.extract_replays(frag["out"], fb)
+        if n_frag == 0:
+            raise lib.ToolError("no fragmentation walks exported by Gen_Archive")
+        with open(beh, "a") as f, open(fb) as g:
+            for line in g:
+                f.write(line)
+        n_walks += n_frag
         if th:
             cfg = _seeded_cfg(ctx, "Gen_Archive_walk.cfg", ctx.seed)
             walk = lib.tlc(ctx, "gen_walk", "Gen_Archive.tla", cfg, workers=4, timeout=1500, count=False)
@@ -69,6 +83,19 @@ def _run(ctx):
             with open(beh, "a") as f, open(wb) as g:
                 for line in g:
                     f.write(line)
+    # which branches of the code do the behaviours take (according to the model)?
+    hist = {}
+    with open(beh) as f:
+        for line in f:
+            for st in json.loads(line)["steps"]:
+                for part in re.split(r"[:/]", st.get("path", "")):
+                    if part and part != "move":
+                        hist[part] = hist.get(part, 0) + 1
+    ctx.extra["model_paths_replayed"] = hist
+    if not ctx.replay:
+        missing = [p for p in _PATHS_REQUIRED if p not in hist]
+        if missing:
+            raise lib.ToolError("the exported behaviours never take the branch(es) %s" % ", ".join(missing))
     # 3. replay on the real archive
     res = lib.vh(ctx, "archive", beh, props=[pid], opts=opts, timeout=2400)
     r = res["per_property"][pid]
@@ -111,7 +138,7 @@ def _run(ctx):
 
 _NOTE = ("TLC checks Archive.tla (a line-by-line transcription of publish/update/delete/find_empty/create_empty/"
          "unlink_empty/verify with explicit next pointers, bucket chains and the empty chain) against the abstract map: "
-         "refinement, tiling, accounting, verify() ok, no Corrupt/io/panic path reachable, and rejects three seeded faults. "
+         "refinement, tiling, accounting, verify() ok, no Corrupt/io/panic path reachable, and rejects four seeded faults. "
          "It also shows that all block sizes are whole pages, so the `size + header - 1` boundary of fits() cannot be reached "
          "through the API (an off-by-one there is unobservable). The replay pushes every exported operation sequence through "
          "the real Archive with a property-level oracle; differences to the model's layout are reported as divergences only. "
